@@ -1323,6 +1323,19 @@ def m_mem_replace(I, st, c, args, body, t):
     return st, v
 
 
+def m_opaque_cmp(I, st, c, args, body, t):
+    """PartialOrd / Ord comparisons of opaque values (durations, time stamps, strings): no panic, result unknown"""
+    a, b = deref(I, st, args[0]), deref(I, st, args[1])
+    nm = c.get("name")
+    ta, tb = getattr(a, "term", None), getattr(b, "term", None)
+    if nm in ("lt", "le", "gt", "ge"):
+        return st, BoolV(None, None, deps_of(a) | deps_of(b), (nm.capitalize(), ta, tb))
+    if nm in ("cmp", "partial_cmp"):
+        ordv = EnumV("std::cmp::Ordering", {"Less": ((), {}), "Equal": ((), {}), "Greater": ((), {})})
+        return st, (ordv if nm == "cmp" else EnumV.some(ordv))
+    return st, Top(deps_of(a) | deps_of(b), nm)
+
+
 def m_noop(I, st, c, args, body, t):
     return st, UNIT
 
@@ -1472,6 +1485,9 @@ def install(models):
                 return m_parse_result
         if p == "std::cmp::Ord::clamp":
             return m_clamp
+        if p in ("std::cmp::PartialOrd::lt", "std::cmp::PartialOrd::le", "std::cmp::PartialOrd::gt", "std::cmp::PartialOrd::ge") and (
+                "chrono" in name or "time::Duration" in name or "String" in name or "str" in name):
+            return m_opaque_cmp
         if p == "std::convert::TryFrom::try_from" and ("convert::num" in name):
             return m_try_from
         if p in ("std::convert::From::from", "std::convert::Into::into") and ("convert::num::float_conv" in name or " for f64>" in name or " for f32>" in name):
